@@ -62,7 +62,9 @@ def generate(rng, tier, boost):
     # proof of work
     limits_c = [0x1d00ffff, 0x207fffff, 0x1d00fffe, 0x1d010000, 0x1c7fffff, 0x1e00ffff, 0x2100ffff,
                 0x21008000, 0x2200ffff, 0x03000001, 0x02000100, 0x01010000, 0x01003456, 0x00123456,
-                0x1c800000, 0x01800000, 0x1d80ffff, 0x04923456, 0xff123456, 0x20ffffff, 0x207fffff + 1]
+                0x1c800000, 0x01800000, 0x1d80ffff, 0x04923456, 0xff123456, 0x20ffffff, 0x207fffff + 1,
+                0x00000000, 0x03000000, 0x1d000000, 0x20000000, 0xff000000, 0x1d800000, 0x00800000,       # zero mantissa, with and without the sign bit
+                0x1e0377ae, 0x1e0377af, 0x1e03ffff, 0x1e040000, 0x1f000377]                                 # around signet's limit
     comp = limits_c + [((rng.randrange(0, 36) << 24) | rng.getrandbits(24)) for _ in range(400 if big else 40)]
     for chain in range(4):
         for c in comp:
